@@ -99,7 +99,10 @@ class ModScan(ast.NodeVisitor):
         if isinstance(f, ast.Attribute):
             if f.attr in MUTATORS:
                 v = f.value
-                if isinstance(v, ast.Name):
+                mi = self.eng.modinfo
+                if isinstance(v, ast.Name) and mi is not None and v.id in mi.imports:
+                    pass        # module function such as os.remove
+                elif isinstance(v, ast.Name):
                     self.names.add(v.id)
                     self.val_heap = True
                 elif isinstance(v, ast.Attribute):
